@@ -59,7 +59,7 @@ void __CPROVER_file_local_wopn_file_c_WOPN_writeInstrument(WOPNInstrument *ins, 
 {
     size_t off = (size_t)(cursor - g_base);
     __CPROVER_assert(off == g_first + (size_t)g_calls * g_stride, "PROP: writer puts instrument k at header + k*size");
-    __CPROVER_assert(off + g_stride <= g_len, "PROP: written instrument block lies inside the calculated size");
+    __CPROVER_assert(off + g_stride <= g_len, "PROP: written instrument block lies inside the given destination length");
     __CPROVER_assert(has_sounding_delays == 1, "PROP: bank files carry delays");
     cursor[35] = ins->fbalg;
     cursor[34] = ins->percussion_key_number;
@@ -176,5 +176,50 @@ void harness_small(void)
     rc = WOPN_SaveBankToMem(f, out, length, f->version, 0);
     __CPROVER_assert(rc != WOPN_ERR_OK, "PROP: too-small destination is refused");
     __CPROVER_assert(out[probe] == before, "PROP: no byte at or beyond the given length is written");
+    VWITNESS();
+}
+
+/* C15.save.guard: WOPN_SaveBankToMem alone on a FORGED bank file value (no loader run): bank counts
+ * MEL/PER concrete (up to 9 per group, so that 16-bit size arithmetic would wrap), version concrete,
+ * destination length symbolic in [0, needed].  The write stub asserts that every instrument block --
+ * and, at the first instrument of a group, the whole group -- lies inside the given length. */
+#ifndef SAVE_VER
+#define SAVE_VER 2
+#endif
+#define S_STRIDE ((SAVE_VER == 0 || SAVE_VER >= 2) ? 69 : 65)
+#define S_FIRST (((SAVE_VER == 0 || SAVE_VER >= 2) ? 18 : 16) + ((SAVE_VER == 0 || SAVE_VER >= 2) ? 34u * (EMEL + EPER) : 0))
+#define S_NEED (S_FIRST + (size_t)S_STRIDE * 128 * (EMEL + EPER))
+static unsigned char sout[S_NEED];
+void harness_save_guard(void)
+{
+    WOPNFile f;
+    size_t length = nondet_ulong();
+    int rc;
+    VASSUME(length < S_NEED);   /* the exact-size case is harness_save_exact (no probe byte exists) */
+    f.version = 2; f.banks_count_melodic = EMEL; f.banks_count_percussion = EPER;
+    f.lfo_freq = nondet_uchar(); f.chip_type = nondet_uchar(); f.volume_model = 0;
+    f.banks_melodic = (WOPNBank *)malloc(sizeof(WOPNBank) * EMEL);      /* contents arbitrary, only read */
+    f.banks_percussive = (WOPNBank *)malloc(sizeof(WOPNBank) * EPER);
+    VASSUME(f.banks_melodic != 0 && f.banks_percussive != 0);
+    __CPROVER_assert(WOPN_CalculateBankFileSize(&f, SAVE_VER) >= S_NEED, "PROP: the size calculator reports at least header + meta + 128*size*banks");
+    g_base = sout; g_len = length; g_first = S_FIRST; g_stride = S_STRIDE; g_calls = 0;
+    rc = WOPN_SaveBankToMem(&f, sout, length, SAVE_VER, 0);
+    __CPROVER_assert(rc == WOPN_ERR_UNEXPECTED_ENDING, "PROP: too-small destination is refused with the documented error");
+    VWITNESS();
+}
+
+void harness_save_exact(void)
+{
+    WOPNFile f;
+    int rc;
+    f.version = 2; f.banks_count_melodic = EMEL; f.banks_count_percussion = EPER;
+    f.lfo_freq = nondet_uchar(); f.chip_type = nondet_uchar(); f.volume_model = 0;
+    f.banks_melodic = (WOPNBank *)malloc(sizeof(WOPNBank) * EMEL);
+    f.banks_percussive = (WOPNBank *)malloc(sizeof(WOPNBank) * EPER);
+    VASSUME(f.banks_melodic != 0 && f.banks_percussive != 0);
+    g_base = sout; g_len = S_NEED; g_first = S_FIRST; g_stride = S_STRIDE; g_calls = 0;
+    rc = WOPN_SaveBankToMem(&f, sout, S_NEED, SAVE_VER, 0);      /* sout has exactly S_NEED bytes */
+    __CPROVER_assert(rc == WOPN_ERR_OK, "PROP: saving into a buffer of the calculated size succeeds");
+    __CPROVER_assert(g_calls == 128u * (EMEL + EPER), "PROP: writer emits 128 instruments per bank");
     VWITNESS();
 }
